@@ -1,0 +1,37 @@
+//go:build verif
+
+// Contract for the point decoder of secp256k1 (comment-only; installed by /verif/gcv gen-contracts). Points of this
+// curve are only encoded uncompressed (x || y). Layer "ring fp.Element": the coordinate decoders (proved under C08)
+// are opaque, only their error results are used. Acceptance-implies-check, and totality: every slice operation is
+// an obligation, so a truncated encoding must be refused with an error, never sliced beyond its length.
+
+package secp256k1
+
+//@ func G1Affine.IsInSubGroup
+//@ layer ring fp.Element
+//@ assumed the subgroup test is a pure predicate of the point (its exactness is number theory: not proved)
+//@ ensures[value] result == ufbool_insubgroup(p.X, p.Y)
+//@ modifies nothing
+//@ end
+
+//@ func G1Affine.setBytes
+//@ layer ring fp.Element
+//@ option nomerge
+//@ ghost canonX = false
+//@ ghost canonY = false
+//@ ghost insub = false
+//@ ghost oncurve = false
+//@ cut after call SetBytesCanonical #1
+//@ + ghost canonX = isnil(callresult)
+//@ cut after call SetBytesCanonical #2
+//@ + ghost canonY = isnil(callresult)
+//@ cut after call IsInSubGroup #1
+//@ + ghost insub = callresult
+//@ cut after call IsOnCurve #1
+//@ + ghost oncurve = callresult
+//@ ensures[short] len(buf) < SizeOfG1AffineUncompressed ==> !isnil(result1) && result0 == 0
+//@ ensures[reject-count] !isnil(result1) ==> result0 == 0
+//@ ensures[canonical] isnil(result1) ==> canonX && canonY && result0 == SizeOfG1AffineUncompressed
+//@ ensures[on-curve] isnil(result1) ==> (subGroupCheck && insub) || (!subGroupCheck && oncurve)
+//@ modifies p
+//@ end
